@@ -150,6 +150,10 @@ mut('no_dedupe_at_all', 'break', ['C18'], FF,
     '''            Ok(path) => seen.insert(match file_identity(path) {''',
     '''            Ok(path) => true || seen.insert(match file_identity(path) {''', 'undoes F01 and F05: same file named twice')
 
+mut('walk_by_extension_only', 'break', ['C18'], FF,
+    '''                                match formattable_file_path(file_path) && !file_path.is_dir() {''',
+    '''                                match formattable_file_path(file_path) {''', 'undoes F07: needs a directory named like a source file inside (or as) the walked directory')
+
 # ---- behaviour-preserving edits (must stay silent)
 mut('p_always_rewrite', 'preserve', ['C16', 'C17', 'C18'], FF,
     '                if decoded_file.contents.eq(&formatted_output) {\n', '                if false && decoded_file.contents.eq(&formatted_output) {\n', 'rewrites unchanged files with identical bytes')
